@@ -26,6 +26,7 @@ type Query struct {
 	Q    int   `json:"q"`
 	Sec  int64 `json:"sec"`
 	Nsec int64 `json:"nsec"`
+	Tz   int   `json:"tz"` // the query value is expressed in this zone (seconds east of UTC); same instant
 }
 
 type Dir struct {
@@ -180,7 +181,7 @@ func main() {
 				mu.Lock()
 				cur = rs
 				mu.Unlock()
-				t := time.Unix(q.Sec, q.Nsec).UTC()
+				t := time.Unix(q.Sec, q.Nsec).In(time.FixedZone("case", q.Tz))
 				switch d.Kind {
 				case "minute":
 					var n replication.MinuteSeqNum
